@@ -35,6 +35,7 @@ STANDING_ASSUMPTIONS = [
     "CBMC's IEEE-754 model for + - * / comparisons, casts, trunc/floor/abs/copysign is trusted",
     "target x86-64, little-endian, 64-bit usize (what Kani compiles for)",
     "termination is not checked by Kani (partial correctness only)",
+    "std's integer operations (checked_mul, checked_div, wrapping_rem, `as` casts) are the trusted definition of exact machine arithmetic; spec functions use i64/i128/u128 where a wider type makes overflow impossible",
     "code outside the listed kernel functions is NOT covered: the whole-program quantifier of the property is not decided (DESIGN.md section 5)",
 ]
 
